@@ -1337,4 +1337,305 @@ theorem placePatchBlocks_patch (ir : IR) (tb : List Block) (i base c : Nat) (hc 
       · obtain ⟨w, _, hw⟩ := List.mem_map.mp (List.mem_of_find?_eq_some hp)
         rw [← hw]
 
+/-! ### `_add_other_section_contents` -/
+
+def osLastEmpty (s : PatchSect) : Bool := (s.blocks.getLast?.map (·.size == 0)).getD false
+def osKept (s : PatchSect) : List Block := if osLastEmpty s then s.blocks.dropLast else s.blocks
+def osLastId (s : PatchSect) : Nat := (s.blocks.getLast?.map (·.id)).getD 0
+def osPrevId (s : PatchSect) : Nat := ((s.blocks.dropLast).getLast?.map (·.id)).getD 0
+def osRewrite (s : PatchSect) (y : Sym) : Sym :=
+  if y.ref == .block (osLastId s) then { y with ref := .block (osPrevId s), atEnd := true } else y
+
+theorem orderAppend_syms (x : IR) (s : Nat) (bs : List Nat) : (x.orderAppend s bs).syms = x.syms := by
+  unfold IR.orderAppend; split <;> rfl
+
+theorem orderAppend_order_congr {x y : IR} (h : x.order = y.order) (s : Nat) (bs : List Nat) :
+    (x.orderAppend s bs).order = (y.orderAppend s bs).order := by
+  unfold IR.orderAppend; split <;> simp [h]
+
+/-- what one extra section of a patch adds to the module -/
+theorem addOtherSection_shape {ir ir' : IR} {p : Patch} {s : PatchSect} {sid bid : Nat} {ns : List Sym}
+    (h : ir.addOtherSection p s sid bid = .ok (ir', ns)) :
+    ir'.blocks = ir.blocks ++ (osKept s).map (fun b => ({ b with bi := some bid } : Block)) ∧
+    (∃ bi : Interval, bi.id = bid ∧ bi.sect = sid ∧ ir'.intervals = ir.intervals ++ [bi]) ∧
+    ir'.syms = ir.syms ∧
+    ir'.order = (ir.orderAppend sid ((osKept s).map (·.id))).order ∧
+    ns = (if osLastEmpty s then p.syms.map (osRewrite s) else p.syms) ∧
+    (osLastEmpty s = true → s.blocks.length = 1 → p.syms.any (fun y => y.ref == .block (osLastId s)) = false) := by
+  unfold IR.addOtherSection at h
+  simp only [] at h
+  split at h
+  · cases h
+  · split at h
+    · cases h
+    · rename_i h1 h2
+      injection h with h; injection h with h1' h2'; subst h1'; subst h2'
+      refine ⟨?_, ⟨{ id := bid, sect := sid, addr := none, size := s.data.length, bytes := s.data, symExprs := s.symExprs },
+        rfl, rfl, ?_⟩, ?_, ?_, ?_, ?_⟩
+      · rw [orderAppend_blocks]
+        unfold osKept osLastEmpty
+        rfl
+      · rw [orderAppend_intervals]
+      · rw [orderAppend_syms]
+      · have hL : ((if (s.blocks.getLast?.map (·.size == 0)).getD false then s.blocks.dropLast else s.blocks).map
+            (fun b => ({ b with bi := some bid } : Block))).map (·.id) = (osKept s).map (·.id) := by
+          unfold osKept osLastEmpty
+          rw [List.map_map]
+          rfl
+        rw [hL]
+        apply orderAppend_order_congr
+        rfl
+      · unfold osLastEmpty osRewrite osLastId osPrevId
+        rfl
+      · intro hle hlen
+        have : ¬ ((osLastEmpty s && s.blocks.length == 1 && p.syms.any (fun y => y.ref == .block (osLastId s))) = true) := by
+          simpa [osLastEmpty, osLastId] using h2
+        simp only [hle, hlen, Bool.true_and, beq_self_eq_true] at this
+        simpa using this
+
+theorem find_append_iv (l extra : List Interval) (k : Nat) :
+    (l ++ extra).find? (·.id == k) =
+      match l.find? (·.id == k) with
+      | some b => some b
+      | none => extra.find? (·.id == k) := by
+  rw [List.find?_append]
+  cases l.find? (·.id == k) <;> rfl
+
+/-- the blocks of a section the patch brings: the last one, when it is empty, is dropped -/
+theorem osKept_cases (s : PatchSect) :
+    (osLastEmpty s = false ∧ osKept s = s.blocks) ∨
+    (osLastEmpty s = true ∧ ∃ last, s.blocks.getLast? = some last ∧ osLastId s = last.id ∧
+      osKept s = s.blocks.dropLast ∧ s.blocks = s.blocks.dropLast ++ [last]) := by
+  cases hle : osLastEmpty s with
+  | false => left; exact ⟨rfl, by unfold osKept; rw [hle]; rfl⟩
+  | true =>
+    right
+    refine ⟨rfl, ?_⟩
+    cases hl : s.blocks.getLast? with
+    | none => unfold osLastEmpty at hle; rw [hl] at hle; simp at hle
+    | some last =>
+      refine ⟨last, rfl, by unfold osLastId; rw [hl]; rfl, by unfold osKept; rw [hle]; rfl, ?_⟩
+      have hne : s.blocks ≠ [] := by intro he; rw [he] at hl; cases hl
+      have hgl : s.blocks.getLast hne = last := by
+        have := List.getLast?_eq_some_getLast hne
+        rw [hl] at this; injection this with this; exact this.symm
+      rw [← hgl]
+      exact (List.dropLast_concat_getLast hne).symm
+
+/-- **one extra section**: its blocks are attached, the symbols that stood on its dropped empty
+last block move to the block in front, and the ordering of its section gains one chain -/
+theorem otherStep_sinv {i i2 : IR} {p : Patch} {s : PatchSect} {sid bid : Nat} {ns : List Sym} {rest : List Nat}
+    (hao : i.addOtherSection { p with syms := i.syms.filter (fun y => p.syms.any (·.id == y.id)) } s sid bid = .ok (i2, ns))
+    (hs : SymsOk i (s.blocks.map (·.id) ++ rest)) (ho : OrdOk i)
+    (hfr : ∀ c ∈ s.blocks.map (·.id), i.block? c = none) (hnd : (s.blocks.map (·.id)).Nodup)
+    (hdis : ∀ c ∈ s.blocks.map (·.id), c ∉ rest)
+    (hiv : i.interval? bid = none)
+    (hown : ∀ y ∈ i.syms, ∀ c ∈ s.blocks.map (·.id) ++ rest, y.ref = .block c → p.syms.any (·.id == y.id) = true)
+    (j : IR) (hj : j = { i2 with syms := i2.syms.map (fun y => match ns.find? (·.id == y.id) with | some ny => ny | none => y) }) :
+    SymsOk j rest ∧ OrdOk j ∧ SecLe i j ∧
+    (∀ c, c ∉ s.blocks.map (·.id) → j.block? c = i.block? c) ∧
+    (∀ b', b' ≠ bid → j.interval? b' = i.interval? b') ∧
+    (∀ y ∈ j.syms, ∀ c ∈ rest, y.ref = .block c → p.syms.any (·.id == y.id) = true) := by
+  obtain ⟨hbl, ⟨bi, hbid, hbsect, hivs⟩, hsy, hord, hns, hsingle⟩ := addOtherSection_shape hao
+  have jb : j.blocks = i.blocks ++ (osKept s).map (fun b => ({ b with bi := some bid } : Block)) := by rw [hj]; exact hbl
+  have ji : j.intervals = i.intervals ++ [bi] := by rw [hj]; exact hivs
+  have jo : j.order = (i.orderAppend sid ((osKept s).map (·.id))).order := by rw [hj]; exact hord
+  have js : j.syms = i.syms.map (fun y => match ns.find? (·.id == y.id) with | some ny => ny | none => y) := by
+    rw [hj]; simp only [hsy]
+  -- kept blocks are blocks of the section
+  have hkeptsub : ∀ z ∈ osKept s, z ∈ s.blocks := by
+    intro z hz
+    rcases osKept_cases s with ⟨_, hk⟩ | ⟨_, last, _, _, hk, _⟩
+    · rw [hk] at hz; exact hz
+    · rw [hk] at hz; exact List.dropLast_subset _ hz
+  -- (A) old lookups
+  have hA : ∀ c x, i.block? c = some x → j.block? c = some x := by
+    intro c x hx
+    unfold IR.block? at hx ⊢
+    rw [jb, find_append, hx]
+  have hA' : ∀ c, c ∉ s.blocks.map (·.id) → j.block? c = i.block? c := by
+    intro c hc
+    unfold IR.block?
+    rw [jb, find_append]
+    cases hf : i.blocks.find? (·.id == c) with
+    | some x => rfl
+    | none =>
+      simp only []
+      apply List.find?_eq_none.mpr
+      intro y hy hyc
+      obtain ⟨z, hz, hzy⟩ := List.mem_map.mp hy
+      apply hc
+      have : y.id = c := by simpa using hyc
+      rw [← this, ← hzy]
+      exact List.mem_map.mpr ⟨z, hkeptsub z hz, rfl⟩
+  -- (C) intervals
+  have hC : ∀ k, k ≠ bid → j.interval? k = i.interval? k := by
+    intro k hk
+    unfold IR.interval?
+    rw [ji, find_append_iv]
+    cases i.intervals.find? (·.id == k) with
+    | some v => rfl
+    | none =>
+      simp only [List.find?_cons, List.find?_nil]
+      have : (bi.id == k) = false := by simp [hbid]; exact fun h => hk h.symm
+      rw [this]
+  have hD : ISec j bid sid := by
+    unfold ISec IR.interval?
+    rw [ji, find_append_iv]
+    unfold IR.interval? at hiv
+    rw [hiv]
+    simp [hbid, hbsect]
+  have hE : SecLe i j := by
+    intro c t ⟨x, hx, hsx⟩
+    refine ⟨x, hA c x hx, ?_⟩
+    unfold IR.sectionOf at hsx ⊢
+    split at hsx
+    · cases hsx
+    · rename_i k hk
+      have hkb : k ≠ bid := by
+        intro he; subst he; rw [hiv] at hsx; cases hsx
+      rw [hC k hkb]; exact hsx
+  -- (B)/(F) new blocks are attached
+  have hF : ∀ c ∈ (osKept s).map (·.id), Sec j c sid := by
+    intro c hc
+    obtain ⟨z, hz, hzc⟩ := List.mem_map.mp hc
+    have hnone : i.blocks.find? (·.id == c) = none := by
+      have := hfr c (List.mem_map.mpr ⟨z, hkeptsub z hz, hzc⟩)
+      unfold IR.block? at this; exact this
+    cases hg : ((osKept s).map (fun b => ({ b with bi := some bid } : Block))).find? (·.id == c) with
+    | none =>
+      have := List.find?_eq_none.mp hg { z with bi := some bid } (List.mem_map.mpr ⟨z, hz, rfl⟩)
+      simp [hzc] at this
+    | some nb =>
+      have hnb : j.block? c = some nb := by
+        unfold IR.block?
+        rw [jb, find_append, hnone]
+        exact hg
+      obtain ⟨w, _, hw⟩ := List.mem_map.mp (List.mem_of_find?_eq_some hg)
+      exact Sec.of_isec hnb (by rw [← hw]) hD
+  -- the symbols handed to the section
+  let F := i.syms.filter (fun y => p.syms.any (·.id == y.id))
+  have hnsF : ∀ ny ∈ ns, ∃ z ∈ F, ny.id = z.id ∧
+      ((ny = z ∧ (osLastEmpty s = true → z.ref ≠ .block (osLastId s))) ∨
+       (osLastEmpty s = true ∧ z.ref = .block (osLastId s) ∧ ny.ref = .block (osPrevId s))) := by
+    intro ny hny
+    rw [hns] at hny
+    split at hny
+    · rename_i hle
+      obtain ⟨z, hz, hzn⟩ := List.mem_map.mp hny
+      refine ⟨z, hz, ?_, ?_⟩
+      · rw [← hzn]; unfold osRewrite; split <;> rfl
+      · unfold osRewrite at hzn
+        split at hzn
+        · rename_i hr
+          right
+          exact ⟨hle, by simpa using hr, by rw [← hzn]⟩
+        · rename_i hr
+          left
+          exact ⟨hzn.symm, fun _ hc => hr (by rw [hc]; simp)⟩
+    · rename_i hle
+      exact ⟨ny, hny, rfl, Or.inl ⟨rfl, fun h => absurd h hle⟩⟩
+  refine ⟨?_, ?_, hE, hA', hC, ?_⟩
+  · -- symbols
+    intro y' hy' c hc
+    rw [js] at hy'
+    obtain ⟨y, hy, rfl⟩ := List.mem_map.mp hy'
+    split at hc
+    · -- replaced by the copy the section returned
+      rename_i ny hfind
+      obtain ⟨z, hzF, _, hcase⟩ := hnsF ny (List.mem_of_find?_eq_some hfind)
+      have hzi : z ∈ i.syms := (List.mem_filter.mp hzF).1
+      rcases hcase with ⟨hsame, hnotlast⟩ | ⟨hle, hzref, hnyref⟩
+      · subst hsame
+        rcases hs ny hzi c hc with ⟨t, hsec⟩ | hp
+        · exact Or.inl ⟨t, hE c t hsec⟩
+        · rcases List.mem_append.mp hp with hp | hp
+          · -- a block of this section: attached now, unless it is the dropped last one
+            rcases osKept_cases s with ⟨hle0, hk⟩ | ⟨hle1, last, hlast, hlid, hk, hsplit⟩
+            · exact Or.inl ⟨sid, hF c (by rw [hk]; exact hp)⟩
+            · rw [hsplit, List.map_append] at hp
+              rcases List.mem_append.mp hp with hp | hp
+              · exact Or.inl ⟨sid, hF c (by rw [hk]; exact hp)⟩
+              · simp only [List.map_cons, List.map_nil, List.mem_singleton] at hp
+                -- the last block: a symbol on it would have been rewritten
+                exfalso
+                apply hnotlast hle1
+                rw [hc, hp, hlid]
+          · exact Or.inr hp
+      · -- rewritten: it now stands at the end of the block in front of the dropped one
+        rw [hnyref] at hc
+        simp only [Referent.block.injEq] at hc
+        subst hc
+        rcases osKept_cases s with ⟨hle0, _⟩ | ⟨_, last, hlast, hlid, hk, hsplit⟩
+        · rw [hle0] at hle; cases hle
+        · cases hd : s.blocks.dropLast.getLast? with
+          | none =>
+            exfalso
+            have hprev : s.blocks.dropLast = [] := List.getLast?_eq_none_iff.mp hd
+            have hlen : s.blocks.length = 1 := by rw [hsplit, hprev]; rfl
+            have := hsingle hle hlen
+            simp only [List.any_eq_false] at this
+            exact this z hzF (by rw [hzref]; simp)
+          | some q =>
+            left
+            refine ⟨sid, hF _ ?_⟩
+            rw [hk]
+            unfold osPrevId; rw [hd]
+            exact List.mem_map.mpr ⟨q, List.mem_of_getLast? hd, rfl⟩
+    · -- not one of the patch's symbols
+      rename_i hfind
+      have hnotF : y ∉ F := by
+        intro hyF
+        have hex : ∃ ny ∈ ns, ny.id = y.id := by
+          rw [hns]
+          split
+          · exact ⟨osRewrite s y, List.mem_map.mpr ⟨y, hyF, rfl⟩, by unfold osRewrite; split <;> rfl⟩
+          · exact ⟨y, hyF, rfl⟩
+        obtain ⟨ny, hny, hid⟩ := hex
+        have := List.find?_eq_none.mp hfind ny hny
+        simp [hid] at this
+      have hnown : p.syms.any (·.id == y.id) = false := by
+        cases ha : p.syms.any (·.id == y.id) with
+        | false => rfl
+        | true => exact absurd (List.mem_filter.mpr ⟨hy, ha⟩) hnotF
+      rcases hs y hy c hc with ⟨t, hsec⟩ | hp
+      · exact Or.inl ⟨t, hE c t hsec⟩
+      · have := hown y hy c hp hc
+        rw [hnown] at this; cases this
+  · -- ordering
+    intro t ch hch
+    rw [jo] at hch
+    unfold IR.orderAppend at hch
+    split at hch
+    · obtain ⟨hnd0, hm0⟩ := ho t ch hch
+      exact ⟨hnd0, fun x hx => hE x t (hm0 x hx)⟩
+    · simp only [] at hch
+      rw [getD_alookup_aset] at hch
+      split at hch
+      · rename_i htt
+        subst htt
+        rcases List.mem_append.mp hch with hch | hch
+        · obtain ⟨hnd0, hm0⟩ := ho t ch hch
+          exact ⟨hnd0, fun x hx => hE x t (hm0 x hx)⟩
+        · simp only [List.mem_singleton] at hch
+          subst hch
+          refine ⟨?_, fun x hx => hF x hx⟩
+          rcases osKept_cases s with ⟨_, hk⟩ | ⟨_, last, _, _, hk, hsplit⟩
+          · rw [hk]; exact hnd
+          · rw [hk]
+            rw [hsplit, List.map_append] at hnd
+            exact (List.nodup_append.mp hnd).1
+      · obtain ⟨hnd0, hm0⟩ := ho t ch hch
+        exact ⟨hnd0, fun x hx => hE x t (hm0 x hx)⟩
+  · -- the remaining pending blocks are still referred to by the patch's symbols only
+    intro y' hy' c hc hr
+    rw [js] at hy'
+    obtain ⟨y, hy, rfl⟩ := List.mem_map.mp hy'
+    split at hr
+    · rename_i ny hfind
+      obtain ⟨z, hzF, hid, _⟩ := hnsF ny (List.mem_of_find?_eq_some hfind)
+      rw [hid]
+      exact (List.mem_filter.mp hzF).2
+    · exact hown y hy c (List.mem_append_right _ hc) hr
+
 end GtirbVerif.IR
